@@ -429,7 +429,7 @@ fn long_case(rng: &mut Rng, n: usize) -> (G, Vec<u8>, u8) {
     };
     let rep = |it: G, mode: RepMode| G::Rep { item: Box::new(it), min: 0, max: None, mode };
     let mut body: Vec<u8> = (0..n).map(|_| rng.below(3) as u8).collect();
-    let t = rng.below(7);
+    let t = rng.below(10);
     let g = match t {
         0 => {
             // x* a | x* b   — second alternative restarts from 0 after reading everything
@@ -467,6 +467,62 @@ fn long_case(rng: &mut Rng, n: usize) -> (G, Vec<u8>, u8) {
                 Box::new(G::Then(Box::new(rep(item(rng), RepMode::Count)), Box::new(G::Just(3)))),
                 crate::gram::Strat::SkipUntil(Box::new(G::Any), Box::new(G::End)),
             )
+        }
+        7..=9 => {
+            // padded(): InputRef::skip_while over whitespace runs that straddle the 512-token batch
+            // boundaries of Stream and the 8 KiB buffer of IoInput (runs start shortly before a
+            // boundary and end at, just after or well after it), plus a run at the very end
+            const WS: [u8; 4] = [8, 9, 10, 14];
+            let mut at = 512usize;
+            while at <= body.len() + 4 {
+                if rng.chance(3, 4) {
+                    let start = at.saturating_sub(rng.usize(5));
+                    let len = 1 + rng.usize(8);
+                    for p in start..(start + len).min(body.len()) {
+                        body[p] = *rng.pick(&WS);
+                    }
+                }
+                at += if at % 8192 == 0 || rng.chance(7, 8) { 512 } else { 8192 - at % 8192 };
+            }
+            for _ in 0..rng.below(6) {
+                let p = rng.usize(body.len().max(1));
+                if p < body.len() {
+                    body[p] = *rng.pick(&WS);
+                }
+            }
+            let word = G::Padded(Box::new(item(rng)));
+            match t {
+                7 => {
+                    for _ in 0..rng.below(5) {
+                        body.push(*rng.pick(&WS));
+                    }
+                    rep(word, RepMode::Count)
+                }
+                8 => {
+                    // lexer shape: padded words and un-padded punctuation, the latter never skips by itself
+                    for p in (7..body.len()).step_by(11) {
+                        if body[p] < 8 {
+                            body[p] = 3;
+                        }
+                    }
+                    rep(G::Or(Box::new(word), Box::new(G::Just(3))), RepMode::Collect)
+                }
+                _ => {
+                    // x* then a padded closer: the trailing run sits between the closer and the end
+                    let boundary = ((body.len() + 256) / 512).max(1) * 512;
+                    let n0 = boundary - rng.usize(5);
+                    let mut b2: Vec<u8> = (0..n0).map(|_| rng.below(3) as u8).collect();
+                    for _ in 0..1 + rng.usize(8) {
+                        b2.push(*rng.pick(&WS));
+                    }
+                    b2.push(3);
+                    for _ in 0..rng.below(5) {
+                        b2.push(*rng.pick(&WS));
+                    }
+                    body = b2;
+                    G::Then(Box::new(rep(item(rng), RepMode::Count)), Box::new(G::Padded(Box::new(G::Just(3)))))
+                }
+            }
         }
         _ => {
             // separated list with a late failure, then an alternative
